@@ -159,3 +159,44 @@ contract(
     note="a normal return means that for every assignment named d<X>_dt the call find_state(<X>) returned, i.e. (contract of "
          "find_state) a state of this component is named <X>; an orphan derivative leaves by StateNotFoundInComponent",
 )
+
+
+# ----------------------------------------------------------------------------- ODE.__init__ / make_ode: completeness is checked on every path to a model
+from pyvc import interp as I  # noqa: E402
+
+core.RECORDS["AllAtoms"] = {"symbol_names": "Seq[Name]", "symbol_values": "Dict[Name,Set[Value]]", "symbols": "Dict[Name,Sym]",
+                            "lookup": "Dict[Name,Atom]"}
+core.RECORDS_BY_DOTTED["gotranx.ode.AllAtoms"] = "AllAtoms"
+contract(M + "gather_atoms", params={"components": "Seq[Component]"}, ret="Rec:AllAtoms", assumed=True,
+         note="ASSUMED total (four nested loops that only read attributes and fill containers); nothing is assumed about the tables it returns")
+
+HASDUP = core.uf("some_name_has_two_values", core.parse_ty("Dict[Name,Set[Value]]").sort(), z3.BoolSort())
+
+
+@registry.spec("some_name_has_two_values")
+def _some_name_has_two_values(ctx, st, d):
+    return SV(TBool, HASDUP(lift(d, core.parse_ty("Dict[Name,Set[Value]]")).t))
+
+
+@registry.spec("opaque")
+def _opaque(ctx, st, *a):
+    return None
+
+
+_COMPLETE = "implies(0 <= i and i < len(components), components[i].states_with_derivatives == components[i].states)"
+contract(
+    M + "ODE.__init__", params={"self": "PyObj", "components": "Seq[Component]", "t": "?Sym", "name": "Name", "comments": "?Comments"},
+    ret="PyNone", enum_params={"self": [I.ObjUnderConstruction("ODE")]}, ghost={"i": "Int"},
+    raises={"ComponentNotCompleteError": "maybe", "DuplicateSymbolError": "maybe"},
+    abstractions={"any((x > 1 for x in map(len, symbol_values.values())))": "some_name_has_two_values(symbol_values)",
+                  "set((k for k, v in symbol_values.items() if len(v) > 1))": "opaque()",
+                  "atoms.Comment('')": "opaque()",
+                  "' '.join((comment.text for comment in comments))": "opaque()"},
+    ensures={"every_component_is_complete": _COMPLETE,
+             "keeps_the_components": "self.components == components"},
+    properties=("C08",),
+    note="a model object exists only if check_components returned normally on its components",
+)
+contract(M + "resolve_expressions", params={"components": "Seq[Component]", "symbols": "Dict[Name,Sym]"}, ret="Seq[Component]",
+         raises={"GotranxError": "maybe"}, assumed=True,
+         note="ASSUMED interface only (may raise MissingSymbolError etc.): what it returns is checked again by ODE.__init__")
